@@ -200,6 +200,13 @@ let () =
       if has "P0" && ob 0 false 0 then fail id "SPEC" "expected_unequal" cls;
       if has "I1" && not (ob 0 true 0) then fail_io "move_not_ignored" cls;
       if has "I0" && ob 0 true 0 then fail_io "more_than_order_ignored" cls;
+      if has "T1" then
+        for ti = 1 to nt - 1 do
+          List.iter (fun io ->
+              if not (ob ti io 0 && ob ti io 1) then
+                fail id "SPEC" "expected_equal_under_tolerance" (Printf.sprintf "%s tol=%s io=%b" cls tols.(ti) io))
+            [false; true]
+        done;
       if has "T0" then
         for ti = 1 to nt - 1 do
           List.iter (fun io ->
